@@ -200,7 +200,8 @@ static void ratom_read(struct ratom *ra, char **pat)
 			*pat += 2;
 			break;
 		}
-		(*pat)++;
+		if ((*pat)[1])		/* a backslash at the end stands for itself */
+			(*pat)++;
 	default:
 		ra->ra = RA_CHR;
 		s = *pat;
@@ -411,7 +412,8 @@ static struct rnode *rnode_atom(char **pat)
 		} else {
 			rnode->maxcnt = rnode->mincnt;
 		}
-		++*pat;
+		if (**pat)		/* do not step over the end of the pattern */
+			++*pat;
 		if (rnode->mincnt > NREPS || rnode->maxcnt > NREPS ||
 				(rnode->maxcnt >= 0 && rnode->mincnt > rnode->maxcnt)) {
 			rnode_free(rnode);
